@@ -197,12 +197,26 @@ void Groups::evalArguments( int argc, char* argv[]) noexcept( false)
    for (auto ai = alp.begin(); ai != alp.end(); ++ai)
    {
       auto  result = Handler::ArgResult::unknown;
+      // evalSingleArgument() may advance the iterator to the value
+      const bool  is_argument = ai->mElementType != detail::ArgListElement::Type::value;
       for (auto & stored_group : mArgGroups)
       {
          result = stored_group.mpArgHandler->evalSingleArgument( ai, alp.end());
          if (result != Handler::ArgResult::unknown)
          {
             usage_printed |= stored_group.mpArgHandler->usagePrinted();
+
+            // an argument was identified: as in a single handler, following
+            // free values can only belong to this argument, no more to a
+            // multi-value argument of another handler of the group
+            if (is_argument)
+            {
+               for (auto & other_group : mArgGroups)
+               {
+                  if (other_group.mpArgHandler != stored_group.mpArgHandler)
+                     other_group.mpArgHandler->mpLastArg = nullptr;
+               } // end for
+            } // end if
             break;   // for
          } // end if
       } // end for
